@@ -78,6 +78,7 @@ ObsPropsReal ==
   /\ Chk("C04_ErrorsExact", C04_ErrorsExact) /\ Chk("C04_DependentsDoNotRun", C04_DependentsDoNotRun)
   /\ Chk("C04_OthersStillBuilt", C04_OthersStillBuilt) /\ Chk("C04_NothingRemembered", C04_NothingRemembered) /\ Chk("C04_TriedAgain", C04_TriedAgain)
   /\ Chk("C05_Returns", C05_Returns)
+  /\ Chk("C06_NoSpuriousFailure", C06_NoSpuriousFailure)
   /\ Chk("C07_ContentAddressed", (ev.a \in {"ret"}) => C07_ContentAddressed)
   /\ Chk("C08_NothingLost", (ev.a \in {"ret"}) => C08_NothingLost)
   /\ Chk("C09_OnlyScopeTouched", C09_OnlyScopeTouched) /\ Chk("C09_NoDirMade", C09_NoDirMade)
